@@ -41,8 +41,8 @@ pub(crate) fn convert(
     //
     // Only `userSpaceOnUse` masks can be shared,
     // because `objectBoundingBox` one will be converted into user one
-    // and will become node-specific.
-    let cacheable = units == Units::UserSpaceOnUse && content_units == Units::UserSpaceOnUse;
+    // and will become node-specific. And so will a mask that links such one.
+    let cacheable = is_cacheable(node);
     if cacheable {
         if let Some(mask) = cache.masks.get(node.element_id()) {
             return Some(mask.clone());
@@ -158,4 +158,20 @@ pub(crate) fn convert(
     let mask = Arc::new(mask);
     cache.masks.insert(id_copy, mask.clone());
     Some(mask)
+}
+
+fn is_cacheable(node: SvgNode) -> bool {
+    // Collect all linked masks. A recursive link will be rejected during conversion.
+    let mut chain = vec![node];
+    while let Some(link) = chain.last().and_then(|n| n.attribute::<SvgNode>(AId::Mask)) {
+        if chain.contains(&link) {
+            break;
+        }
+        chain.push(link);
+    }
+
+    chain.iter().all(|n| {
+        n.attribute(AId::MaskUnits) == Some(Units::UserSpaceOnUse)
+            && n.attribute(AId::MaskContentUnits) != Some(Units::ObjectBoundingBox)
+    })
 }
